@@ -35,7 +35,7 @@ def _range_fields(it, st, op):
     return fld("start"), fld("end")
 
 
-def discharge(site, it, st):
+def discharge(site, it, st, allow_str=False):
     """-> (rule, detail) or None"""
     it._cur = st
     t = site.term
@@ -135,7 +135,7 @@ def discharge(site, it, st):
             parts = key.split("@")
             if base in ("Index::index", "IndexMut::index_mut") and len(parts) >= 3:
                 cty, ity = parts[1], "@".join(parts[2:])
-                if cty in ("str", "String"):
+                if cty in ("str", "String") and not allow_str:
                     return None
                 c = it.container(args[0], st)
                 if c is None:
